@@ -49,6 +49,10 @@ func (m *lbTaskMgr) Receive(resp *protoCommonV1.TaskResponse, from string) error
 	m.mu.Lock()
 	c := m.ctx
 	m.mu.Unlock()
+	if c == nil {
+		// as taskManager.Receive: a response for a request id nobody registered is refused
+		return fmt.Errorf("request may be evicted")
+	}
 	c.HandleResponse(resp, from)
 	return nil
 }
@@ -103,7 +107,7 @@ func (t *lbTransport) SendRequest(target string, req *protoCommonV1.TaskRequest)
 			defer t.wg.Done()
 			// "later" = after the search pipeline's completion callback (it removes the pipeline
 			// from the pipeline manager right after ctx.Complete)
-			for i := 0; i < 20000 && query.GetPipelineManager().GetPipeline(t.reqID) != nil; i++ {
+			for end := time.Now().Add(2 * time.Second); time.Now().Before(end) && query.GetPipelineManager().GetPipeline(t.reqID) != nil; {
 				time.Sleep(100 * time.Microsecond)
 			}
 			for _, tg := range order {
@@ -198,6 +202,7 @@ func loopbackCase(c *core.Ctx, rng *rand.Rand) {
 		if real && got.Err == "pending" && ref.res.Err == "" && emptyLeaf != "" {
 			c.Fail("empty-leaf-turns-answer-into-timeout",
 				fmt.Sprintf("leaf %s knows the metric, has no matching series and answers successfully; through taskManager.Receive the query ends with the deadline instead of %q", emptyLeaf, ref.res.answerLine()))
+			noteTimeoutCase()
 			continue
 		}
 		if withErr {
@@ -209,7 +214,8 @@ func loopbackCase(c *core.Ctx, rng *rand.Rand) {
 		}
 		if got.Err == "pending" && ref.res.Err == "" {
 			c.Fail("answer-turns-into-timeout", fmt.Sprintf("%s: every target answered, the real search ends with the deadline instead of %q", sched, ref.res.answerLine()))
-			continue
+			noteTimeoutCase() // every such case costs the search's whole deadline: the run stops after max_hangs of them
+			break
 		}
 		if got.Err != ref.res.Err || got.answerLine() != ref.res.answerLine() {
 			c.Fail("send-response-interleaving-changes-answer",
